@@ -99,6 +99,25 @@ def build_type(spec, env: Env | None = None, *, cache: bool = True):
     return _build(spec, e, {}), e
 
 
+_BARE = {
+    "list": (typing.List, list), "set": (typing.Set, set), "frozenset": (typing.FrozenSet, frozenset),
+    "vtuple": (typing.Tuple, tuple), "deque": (typing.Deque, collections.deque), "dict": (typing.Dict, dict),
+    "defaultdict": (typing.DefaultDict, collections.defaultdict), "mapping": (typing.Mapping, collections.abc.Mapping),
+    "mutablemapping": (typing.MutableMapping, collections.abc.MutableMapping),
+}
+
+
+def _bare_hint(spec):
+    """Bare spelling of a generic (``list`` for ``list[Any]``): spec[-1] in ("bare_typing", "bare_builtin")."""
+    last = spec[-1] if isinstance(spec[-1], str) else None
+    if last not in ("bare_typing", "bare_builtin"):
+        return None
+    idx = 0 if last == "bare_typing" else 1
+    if spec[0] == "abc":
+        return ABC_HINT[spec[1]][idx]
+    return _BARE[spec[0]][idx]
+
+
 def _sp(spec, idx, default="typing"):
     return spec[idx] if len(spec) > idx and spec[idx] is not None else default
 
@@ -125,6 +144,9 @@ def _build(spec, env: Env, open_models: dict):  # noqa: C901, PLR0911, PLR0912, 
         return typing.Annotated[_build(spec[1], env, open_models), "meta"]
     if tag == "alias":
         return typing.TypeAliasType(f"Alias{next(_uid)}", _build(spec[1], env, open_models))
+    bare = _bare_hint(spec)
+    if bare is not None:
+        return bare
     if tag in ("list", "set", "frozenset", "vtuple"):
         inner = _build(spec[1], env, open_models)
         sp = _sp(spec, 2)
